@@ -6,18 +6,21 @@
 EXTENDS CacheSpec, TraceKit
 CONSTANTS ProbeFids, ProbeMins
 tvars == <<avars, kitvars>>
+(* P = TRUE makes TLC evaluate P as a plain expression: the existential quantifiers inside the
+   predicates would otherwise be enumerated as (identical) successor states, once per witness *)
+Is(P) == P = TRUE
 TraceInit == Init /\ KitInit
 TraceReset == IsReset /\ stored' = {} /\ UNCHANGED hist
 TraceSkip == SkipStep /\ UNCHANGED avars
 TSet == IsEvent("set") /\ Strict /\ Set(Ev.fid, Ev.d, Ev.n) /\ UNCHANGED hist
 TRestart == IsEvent("restart") /\ Strict /\ Restart /\ UNCHANGED hist
 TGet == /\ IsEvent("get")
-        /\ \/ Strict /\ GetOk(Ev.fid, Ev.min, Ev.res)
-           \/ Deviate("C31-disk-key-only") /\ GetAliased(Ev.fid, Ev.min, Ev.res)
+        /\ \/ Strict /\ Is(GetOk(Ev.fid, Ev.min, Ev.res))
+           \/ Deviate("C31-disk-key-only") /\ Is(GetAliased(Ev.fid, Ev.min, Ev.res))
         /\ UNCHANGED avars
 TSlice == /\ IsEvent("slice")
-          /\ \/ Strict /\ SliceOk(Ev.fid, Ev.off, Ev.len, Ev.res)
-             \/ Deviate("C31-disk-key-only") /\ SliceAliased(Ev.fid, Ev.off, Ev.len, Ev.res)
+          /\ \/ Strict /\ Is(SliceOk(Ev.fid, Ev.off, Ev.len, Ev.res))
+             \/ Deviate("C31-disk-key-only") /\ Is(SliceAliased(Ev.fid, Ev.off, Ev.len, Ev.res))
           /\ UNCHANGED avars
 Cells == {<<i, j>> : i \in 1..Len(ProbeFids), j \in 1..Len(ProbeMins)}
 SnapStrict == \A c \in Cells : GetOk(ProbeFids[c[1]], ProbeMins[c[2]], Ev.got[c[1]][c[2]])
@@ -26,8 +29,8 @@ SnapDev == /\ \A c \in Cells : \/ GetOk(ProbeFids[c[1]], ProbeMins[c[2]], Ev.got
            /\ ~SnapStrict
 TSnap == /\ IsEvent("snap")
          /\ Len(Ev.got) = Len(ProbeFids) /\ \A i \in 1..Len(ProbeFids) : Len(Ev.got[i]) = Len(ProbeMins)
-         /\ \/ Strict /\ SnapStrict
-            \/ Deviate("C31-disk-key-only") /\ SnapDev
+         /\ \/ Strict /\ Is(SnapStrict)
+            \/ Deviate("C31-disk-key-only") /\ Is(SnapDev)
          /\ UNCHANGED avars
 TraceNext == TraceReset \/ TraceSkip \/ TSet \/ TRestart \/ TGet \/ TSlice \/ TSnap
 TraceSpec == TraceInit /\ [][TraceNext]_tvars
